@@ -7,7 +7,7 @@ EXTRA_TARGETS = ["Model/Rewrite"]
 TRUSTED_BASE = [
     "Coq 8.16.1 kernel + vm_compute",
     "T1 translator (rewrite_files loop shape, part tables)",
-    "hand-written Gallina model Model/Rewrite.v: diff_files (dry path) vs rewrite_files_eager (write path) over the shared rfd_from_content",
+    "hand-written Gallina model Model/Rewrite.v: diff_files (dry path) vs rewrite_files_eager (write path) over the shared rfd_from_content (its correspondence with the code is checked under C03/C04)",
     "harness: output of `update --dry` parsed by a strict unified-diff applier and compared with a real run on an identical copy; fake git log inspected",
 ]
 ASSUMPTIONS = ["difflib.unified_diff and the textual diff format are not modelled (the printed diff is applied by the harness and compared byte for byte)"]
@@ -172,9 +172,6 @@ def run(rep, tier, seed, model_ok=True, effort=1):
             else:
                 if after_r != before_r and code_r != 0:
                     rep.violation("real run failed and changed files", input=dict(inp, kw={k: v for k, v in kw.items() if k in ("commit_message", "tag_message")}, dry_logs=logs_d[-3:], real_logs=logs_r[-5:], real_exc=repr(exc_r), vcs_log=[e["key"] for e in (prj_real.vcs_log() if use_vcs else [])]), **{"class": "partial-write"})
-            old_a, new_a = rwcheck.announced(logs_r)
-            if code_r == 0 and new_a:
-                rwcheck.rfd_cases(impl, prj_real, spec, new_a, items, meta)
     # corpus: a file whose patterns are not touched by this bump but whose text on disk is stale must be treated alike by --dry and the real run
     for vp, cur, flags_, fname, pat_, stale_text, date_ in [
             ("MAJOR.MINOR.PATCH", "1.2.3", ["--patch"], "notes.md", "release MAJOR.MINOR", "this is release 1.1 of the tool\n", "2026-10-01"),
@@ -225,8 +222,8 @@ def run(rep, tier, seed, model_ok=True, effort=1):
             rep.violation("--dry exits 0 but the real run fails", input=inp, **{"class": "dry-ok-real-fails"})
         elif c_dry == 0 and not after.get("a.txt", b"").startswith("# Caf\u00e9 M\u00fcnch \u2713\n".encode("utf-8")):
             rep.violation("the real run changed bytes the --dry diff did not announce", input=inp, **{"class": "dry-real-differ"})
-    if model_ok and items:
-        rwcheck.eval_rfd(rep, items, meta)
+    # (the correspondence of rfd_from_content with the Coq model belongs to C03 / C04: a change of what is rewritten that the dry and the real
+    #  path share is their subject, not a difference between the two paths)
 
 
 def search(rep, tier, seed, effort=2):
